@@ -341,7 +341,7 @@ native_with_error!(IterSkip, ITER_SKIP);
 
 impl LyNative for IterSkip {
   fn call(&self, hooks: &mut Hooks, args: &[Value]) -> Call {
-    let mut iter = args[0].to_obj().to_enumerator();
+    let iter = args[0].to_obj().to_enumerator();
     let skip_count = args[1].to_num();
 
     if skip_count.fract() != 0.0 {
@@ -366,13 +366,7 @@ impl LyNative for IterSkip {
       );
     }
 
-    let mut current = 0usize;
     let skip_count = skip_count as usize;
-
-    while current < skip_count && !is_falsey(iter.next(hooks)?) {
-      current += 1;
-    }
-
     let inner_iter: Box<dyn Enumerate> = Box::new(SkipIterator::new(iter, skip_count));
     let skip_iter = hooks.manage_obj(Enumerator::new(inner_iter));
     Call::Ok(val!(skip_iter))
@@ -381,13 +375,18 @@ impl LyNative for IterSkip {
 
 #[derive(Debug)]
 struct SkipIterator {
+  current: usize,
   skip_count: usize,
   iter: ObjRef<Enumerator>,
 }
 
 impl SkipIterator {
   fn new(iter: ObjRef<Enumerator>, skip_count: usize) -> Self {
-    Self { skip_count, iter }
+    Self {
+      current: 0,
+      skip_count,
+      iter,
+    }
   }
 }
 
@@ -401,6 +400,14 @@ impl Enumerate for SkipIterator {
   }
 
   fn next(&mut self, hooks: &mut Hooks) -> Call {
+    while self.current < self.skip_count {
+      if is_falsey(self.iter.next(hooks)?) {
+        return Call::Ok(val!(false));
+      }
+
+      self.current += 1;
+    }
+
     self.iter.next(hooks)
   }
 
@@ -429,6 +436,7 @@ impl Trace for SkipIterator {
 impl DebugHeap for SkipIterator {
   fn fmt_heap(&self, f: &mut std::fmt::Formatter, depth: usize) -> std::fmt::Result {
     f.debug_struct("SkipIterator")
+      .field("current", &self.current)
       .field("skip_count", &self.skip_count)
       .field("iter", &DebugWrap(&self.iter, depth))
       .finish()
